@@ -266,7 +266,7 @@ def check(rec, kind, idx, rng, tier):
     maxd = {'inf': np.inf, 'default': None, 'frac': 0.4 * scale, 'one': 1.0 * scale, 'some': float(rng.choice([1.5, 2, 2.5, 3.7, 5])) * scale,
             'huge': 3 * diag_cells * max(geom['cx'], geom['cy']) * (111000.0 if metric == 'GREAT_CIRCLE' else 1)}[mdc]
     names = ('y', 'x') if rng.random() < 0.75 else ('lat', 'lon')
-    r = gen.mk(img, dims=names, attrs={'res': (geom['cx'], geom['cy'])} if rng.random() < 0.3 else {}, **geom)
+    r = gen.mk(gen.rand_layout(img, rng), dims=names, attrs={'res': (geom['cx'], geom['cy'])} if rng.random() < 0.3 else {}, **geom)
     kw = dict(distance_metric=metric)
     if metric == 'EUCLIDEAN' and rng.random() < 0.4:
         kw = {}
